@@ -124,7 +124,8 @@ Aux:
 	if 0 < len(rest) {
 		ss.Let(restSym, rest)
 	}
-	// Next bind any unbound &key vars
+	// Next bind any unbound &optional and &key vars to the value of their
+	// default form, evaluated in the scope being built, then the &aux vars.
 	mode = reqMode
 	for _, ad := range lam.Doc.Args {
 		switch mode {
@@ -153,7 +154,7 @@ Aux:
 				// ignore
 			default:
 				if !ss.Bound(Symbol(ad.Name)) {
-					ss.Let(Symbol(ad.Name), ad.Default)
+					ss.Let(Symbol(ad.Name), ss.Eval(ad.Default, depth+1))
 				}
 			}
 		case restMode:
@@ -166,7 +167,7 @@ Aux:
 				// ignore
 			default:
 				if !ss.Bound(Symbol(ad.Name)) {
-					ss.Let(Symbol(ad.Name), ad.Default)
+					ss.Let(Symbol(ad.Name), ss.Eval(ad.Default, depth+1))
 				}
 			}
 		case keyMode:
@@ -174,15 +175,10 @@ Aux:
 			if AmpAux == asym {
 				mode = auxMode
 			} else if !ss.Bound(asym) {
-				ss.Let(asym, ad.Default)
+				ss.Let(asym, ss.Eval(ad.Default, depth+1))
 			}
 		case auxMode:
-			val := ad.Default
-			if list, ok := val.(List); ok && 1 < len(list) {
-				d2 := depth + 1
-				val = ss.Eval(ListToFunc(ss, list, d2), d2)
-			}
-			ss.Let(Symbol(ad.Name), val)
+			ss.Let(Symbol(ad.Name), ss.Eval(ad.Default, depth+1))
 		}
 	}
 	return lam.BoundCall(ss, depth)
